@@ -120,8 +120,17 @@ int main(int argc, char** argv)
     out().open(argv[1]);
     install_abort_handler();
     rng g(std::strtoull(argv[2], nullptr, 10));
-    bool thorough = std::atoi(argv[3]) != 0;
+    bool thorough = std::atoi(argv[3]) == 1;
     unsigned s = (unsigned) g.below(100000) + 1;
+    if (std::atoi(argv[3]) == 2)
+    {
+        // probe: std::independent_bits_engine with 2^7, 2^24 and 2^53 values (each engine goes to a trace of its own, see checks/C10.py)
+        zoo(g, "ibe_mt_24", std::independent_bits_engine<std::mt19937, 24, unsigned long>(std::mt19937(s)), false);
+        zoo(g, "ibe_mt_7", std::independent_bits_engine<std::mt19937, 7, unsigned long>(std::mt19937(s)), false);
+        zoo(g, "ibe_mt64_53", std::independent_bits_engine<std::mt19937_64, 53, unsigned long>(std::mt19937_64(s)), false);
+        out().close();
+        return 0;
+    }
     scripted_family(g);
     zoo(g, "minstd_rand0", std::minstd_rand0(s), thorough);
     zoo(g, "minstd_rand", std::minstd_rand(s), thorough);
